@@ -76,7 +76,7 @@ struct Lineage {
 pub fn run(p: &Params) -> Report {
     let mut rep = Report::new("C19");
     rep.rule = "cases = faucet applications: on each of the 9 network ids a history of up to 30 blocks in which faucet transactions of many shapes (0-255 outputs, all denominations, data, with and without authorised inputs, the grandfathered mainnet transaction on every network) are applied and then replayed in the same batch, in a later batch of the same block, 1-30 blocks later, with a different sigs field, inside a batch among other transactions, and after a restart through from_block (copied store). Oracle: on mainnet only the grandfathered hash may be accepted; elsewhere each hash_nosigs is accepted at most once per lineage. Non-trivial = every replay attempt; distinct by (network, hash, replay point)".into();
-    let total = p.n(180, 3600);
+    let total = p.n(540, 12000);
     let mine = p.share(total);
     let mut rng = Rng::new(p.shard_seed() ^ 0xC19);
     for case in 0..mine {
